@@ -22,6 +22,7 @@ static std::vector<std::vector<double>> vec_alphabet(int d, bool thorough, bool 
 
 static void check_conversions(int d, const std::vector<double>& c, long long idx) {
   const ref::Basis& B = ref::basis(d);
+  maybe_pollute(d);
   count("evaluations");
   double mag = maxabs(c);
   if (mag > 0) distinct(hashvec(c, d));
@@ -72,6 +73,7 @@ static void check_conversions(int d, const std::vector<double>& c, long long idx
 
 static void check_matrix_input(int d, const Mat& m, const char* kind, long long idx) {
   const ref::Basis& B = ref::basis(d);
+  maybe_pollute(d, 7);
   count("evaluations");
   std::vector<double> want = B.proj(m);
   if (ref::maxabs(m) > 0) distinct(ref::fnv(m.a.data(), m.a.size() * sizeof(cd), 77 + d));
@@ -83,6 +85,17 @@ static void check_matrix_input(int d, const Mat& m, const char* kind, long long 
   sample_every(idx, 41, J().str("kind", std::string("matrix->vector ") + kind).i("d", d).arr("expected_components", want).done());
   if (ref::maxabs(m) > 0) maxstat("from_matrix_err/tol", e / tol);
   if ((int)v.Dim() != d || !(e <= tol)) violation(dsig("SU_vector(matrix):not-trace-projection", d), J().i("d", d).str("matrix", kind).arr("got", got).arr("want", want).num("err", e).done());
+  // the same matrix presented as a d x d view inside a larger matrix (row stride tda != size2) is the same input
+  { gsl_matrix_complex* big = gsl_matrix_complex_alloc(8, 8); gsl_matrix_complex_set_all(big, gsl_complex_rect(9.5, -7.25));
+    gsl_matrix_complex_view vw = gsl_matrix_complex_submatrix(big, 1, 2, d, d);
+    for (int i = 0; i < d; i++) for (int j = 0; j < d; j++) gsl_matrix_complex_set(&vw.matrix, i, j, gsl_complex_rect(m(i, j).real(), m(i, j).imag()));
+    SU_vector v2(&vw.matrix); std::vector<double> g2 = comps(v2);
+    if ((int)v2.Dim() != d || maxdiff(g2, got) != 0) violation(dsig("SU_vector(matrix):strided-view-differs-from-contiguous", d), J().i("d", d).str("matrix", kind).arr("from_view", g2).arr("from_contiguous", got).done());
+    gsl_matrix_complex_view ow = gsl_matrix_complex_submatrix(big, 0, 0, d, d); v.GetGSLMatrix(&ow.matrix);
+    double ev = ref::maxabs(gsl2mat(&ow.matrix) - gsl2mat(v.GetGSLMatrix().get()));
+    bool outside_touched = false; for (int i = 0; i < 8; i++) for (int j = 0; j < 8; j++) if ((i >= d || j >= d) && !(i >= 1 && i < 1 + d && j >= 2 && j < 2 + d)) { gsl_complex z = gsl_matrix_complex_get(big, i, j); if (GSL_REAL(z) != 9.5 || GSL_IMAG(z) != -7.25) outside_touched = true; }
+    if (ev != 0 || outside_touched) violation(dsig("GetGSLMatrix(out):strided-view", d), J().i("d", d).str("matrix", kind).num("err", ev).i("wrote_outside_view", outside_touched).done());
+    gsl_matrix_complex_free(big); count("evaluations"); }
   // and back to the same matrix
   double e2 = ref::maxabs(gsl2mat(v.GetGSLMatrix().get()) - m);
   if (!(e2 <= tol)) violation(dsig("matrix-roundtrip", d), J().i("d", d).str("matrix", kind).num("err", e2).done());
